@@ -32,6 +32,9 @@ if os.path.realpath(os.environ.get('VERIF_REPO', '/repo')) != '/repo':
     subprocess.run(['rsync', '-a', '--delete', os.path.join(VERIF, 'lean') + '/', LEAN + '/'], check=True)
 REPLAYS = os.path.join(OUT, 'replays')
 EVIDENCE = os.path.join(VERIF, 'evidence')
+if os.path.realpath(os.environ.get('VERIF_REPO', '/repo')) != '/repo':
+    EVIDENCE = os.path.join(OUT, 'evidence_mut')   # mutation experiments never overwrite the evidence of the real tree
+    REPLAYS = os.path.join(OUT, 'replays_mut')
 GENERATED = os.path.join(LEAN, 'SdcModel', 'Generated')
 ALLOWED_AXIOMS = {'propext', 'Classical.choice', 'Quot.sound'}
 FORBIDDEN = re.compile(r'\b(sorry|admit|native_decide|bv_decide|implemented_by|unsafe)\b|^\s*axiom\s|maxHeartbeats\s+0\b',
